@@ -148,3 +148,11 @@ Section Generic.
       destruct (run_pure f k (keys_of r)) as [y [t ks]]. exact IH.
   Qed.
 End Generic.
+
+Lemma nth_n_eq {T} (l : list T) : forall i, nth_n l i = nth_error l (N.to_nat i).
+Proof.
+  induction l as [|x t IH]; intros i; cbn [nth_n].
+  - destruct (N.to_nat i); reflexivity.
+  - destruct (N.eqb_spec i 0) as [->|Hn]; [reflexivity|].
+    rewrite IH. replace (N.to_nat i) with (S (N.to_nat (N.pred i))) by lia. reflexivity.
+Qed.
